@@ -82,6 +82,9 @@ func genTStep(rt *rapid.T, nc int, hostile bool) TStep {
 			st.U = rapid.IntRange(1, 3).Draw(rt, "u")
 		}
 		st.Tie = rapid.IntRange(0, 4).Draw(rt, "bindTie") == 0
+		if !st.Tie && rapid.IntRange(0, 9).Draw(rt, "bindOnCtrl") == 0 {
+			st.Side = "ctrl"
+		}
 	case "TCPData":
 		st.K = rapid.IntRange(0, 2).Draw(rt, "k")
 		st.N = rapid.OneOf(rapid.IntRange(1, 64), rapid.IntRange(1, 70000)).Draw(rt, "n")
